@@ -229,6 +229,26 @@ func chainReplay(r *mc.Run) bool {
 		Path  []int  `json:"path"`
 		Min   uint64 `json:"min_stake"`
 	}
+	var at struct {
+		N    int   `json:"attribution"`
+		Zero []int `json:"zero"`
+	}
+	if err := r.LoadReplay(&at); err == nil && at.N > 0 {
+		// an attribution case: the committee (size, zero-power positions) is the case; all its signer sets are run again
+		sigs := map[string]int{}
+		for i := 0; i < 5; i++ {
+			vs, _ := bftworld.AttributionViols(at.N, at.Zero...)
+			for _, v := range vs {
+				if sigs[v.Sig] == 0 {
+					r.OnViol(v)
+				}
+				sigs[v.Sig]++
+			}
+		}
+		fmt.Printf("replay outcomes (5 runs): %v\n", sigs)
+		r.Finish(map[string]any{"states": 1, "transitions": 5, "traces_validated_against_impl": 5})
+		return true
+	}
 	if err := r.LoadReplay(&rp); err != nil || rp.Part != "chain" {
 		return false
 	}
